@@ -355,6 +355,70 @@ def decl_cells():
     yield ("decl:private-field-same-class-other-instance:twin", S + "class M { private int s = 1; public constructor() -> M = default; public function v(M o) -> int { return o.s + this.s; } }\nfunction main() -> void { }\n", True)
 
 
+# ---------------------------------------------------------------------------------------------------------------------------
+# part 4: the compatibility relation through generic inheritance ('an instance of a subclass of the expected class' when the classes
+# are generic: the subclass relation carries the type arguments through every 'extends Base<...>' clause; inherited members have the
+# argument's type)
+# ---------------------------------------------------------------------------------------------------------------------------
+GENERIC_SUPPORT = """class G0<T> { public T item; public constructor(T x) -> G0<T> { this.item = x; } public virtual function f() -> string { return "G0"; } public function put(T v) -> void { this.item = v; } public function get() -> T { return this.item; } }
+class G1<T> extends G0<T> { public constructor(T x) -> G1<T> { super(x); } public override function f() -> string { return "G1"; } }
+class P<A, B> extends G0<B> { public A first; public constructor(A a, B b) -> P<A, B> { super(b); this.first = a; } public function swapin(B nb) -> B { B old = item; item = nb; this.put(nb); return old; } }
+class U<T> { public constructor() -> U<T> { } }
+class H extends G0<int> { public constructor() -> H { super(1); } public function bump() -> int { item = item + 1; this.put(get() + 1); return this.item; } }
+class HS extends G1<string> { public constructor() -> HS { super("h"); } }
+function take(G0<int> g) -> string { return g.f(); }
+function mkH() -> G0<int> { return new H(); }
+"""
+
+
+def generic_cells():
+    main_cases = {   # body of main -> accepted?
+        "init:G0<int><-H": ("G0<int> a = new H();", True),
+        "init:G0<int><-G1<int>": ("G0<int> a = new G1<int>(7);", True),
+        "init:G0<int><-P<string,int>": ("G0<int> a = new P<string, int>(\"a\", 1);", True),
+        "init:G0<string><-HS": ("G0<string> a = new HS();", True),
+        "init:G1<string><-HS": ("G1<string> a = new HS();", True),
+        "assign:G0<int><-H": ("G0<int> a = new G0<int>(1); a = new H();", True),
+        "arg:G0<int><-H": ("echo(take(new H()));", True),
+        "arg:G0<int><-G1<int>": ("echo(take(new G1<int>(2)));", True),
+        "arg:G0<int><-P<float,int>": ("echo(take(new P<float, int>(1.5f, 2)));", True),
+        "return:G0<int><-H": ("G0<int> a = mkH(); echo(a.f());", True),
+        "init:G0<float><-G1<int>": ("G0<float> a = new G1<int>(1);", False),
+        "init:G0<int><-U<int>": ("G0<int> a = new U<int>();", False),
+        "init:G0<string><-P<string,int>": ("G0<string> a = new P<string, int>(\"a\", 1);", False),
+        "init:G0<int><-HS": ("G0<int> a = new HS();", False),
+        "init:G1<int><-G0<int>": ("G1<int> a = new G0<int>(1);", False),
+        "arg:G0<int><-P<int,float>": ("echo(take(new P<int, float>(1, 2.5f)));", False),
+        "arg:G0<int><-HS": ("echo(take(new HS()));", False),
+        "member:H.item<-int": ("H h = new H(); h.item = 4; int k = h.item; echo(k);", True),
+        "member:H.put(int)": ("H h = new H(); h.put(3); echo(h.bump());", True),
+        "member:int<-H.get()": ("H h = new H(); int k = h.get() + 1; echo(k);", True),
+        "member:P.item<-int": ("P<string, int> p = new P<string, int>(\"a\", 1); p.item = 2; int k = p.get(); string s = p.first; echo(p.swapin(7));", True),
+        "member:H.item<-string": ("H h = new H(); h.item = \"s\";", False),
+        "member:H.put(string)": ("H h = new H(); h.put(\"s\");", False),
+        "member:string<-H.get()": ("H h = new H(); string s = h.get();", False),
+        "member:P.item<-string": ("P<string, int> p = new P<string, int>(\"a\", 1); p.item = \"x\";", False),
+        "member:string<-P.get()": ("P<string, int> p = new P<string, int>(\"a\", 1); string s = p.get();", False),
+        "member:P.put(string)": ("P<string, int> p = new P<string, int>(\"a\", 1); p.put(\"no\");", False),
+    }
+    for name, (body, ok) in main_cases.items():
+        yield ("generic:" + name, GENERIC_SUPPORT + "function main() -> void { " + body + " }\n", ok)
+    decl_cases = {
+        "super(int)->G0<int>": ("class X extends G0<int> { public constructor() -> X { super(1); } }", True),
+        "super(string)->G0<int>": ("class X extends G0<int> { public constructor() -> X { super(\"s\"); } }", False),
+        "super(B)->G0<B>": ("class X<A, B> extends G0<B> { public constructor(A a, B b) -> X<A, B> { super(b); } }", True),
+        "super(A)->G0<B>": ("class X<A, B> extends G0<B> { public constructor(A a, B b) -> X<A, B> { super(a); } }", False),
+        "this.item<-B in X<A,B> extends G0<B>": ("class X<A, B> extends G0<B> { public constructor(A a, B b) -> X<A, B> { super(b); this.item = b; } }", True),
+        "this.item<-A in X<A,B> extends G0<B>": ("class X<A, B> extends G0<B> { public constructor(A a, B b) -> X<A, B> { super(b); this.item = a; } }", False),
+        "item<-int in X extends G0<int>": ("class X extends G0<int> { public constructor() -> X { super(1); item = 2; } }", True),
+        "item<-string in X extends G0<int>": ("class X extends G0<int> { public constructor() -> X { super(1); item = \"s\"; } }", False),
+        "return get() as int in X extends G1<int>": ("class X extends G1<int> { public constructor() -> X { super(1); } public function g() -> int { return get() + this.get(); } }", True),
+        "return get() as string in X extends G1<int>": ("class X extends G1<int> { public constructor() -> X { super(1); } public function g() -> string { return this.get(); } }", False),
+    }
+    for name, (decl, ok) in decl_cases.items():
+        yield ("generic:decl:" + name, GENERIC_SUPPORT + decl + "\nfunction main() -> void { }\n", ok)
+
+
 def _one(item):
     name, src, should_accept = item
     r = vdrv.run_job({"id": "a", "kind": "parse", "opts": {"analyse": 1}, "blobs": {"src": src}})
@@ -377,7 +441,7 @@ def _one(item):
 
 def main(tier):
     ck = vcheck.Check("C16", "exploration", tier)
-    cells = list(compat_cells()) + list(expr_cells(tier)) + list(stmt_cells(tier)) + list(decl_cells())
+    cells = list(compat_cells()) + list(expr_cells(tier)) + list(stmt_cells(tier)) + list(decl_cells()) + list(generic_cells())
     n = 0
     outcomes = {}
     for name, src, prob, st in vdrv.pmap(_one, cells, chunksize=32):
@@ -387,6 +451,8 @@ def main(tier):
             parts = name.split(":")
             if parts[0] == "compat":
                 key = "compat:%s:%s" % (parts[1], parts[2])
+            elif parts[0] == "generic":
+                key = name
             else:
                 key = ":".join(parts[:2]) + (":twin" if name.endswith(":twin") else "") + ":" + ("accepted" if "accepted" in prob else "rejected")
             ck.violation(key, "%s\ncell: %s\nprogram:\n%s" % (prob, name, src), {"tool": "vdrv", "job": {"kind": "parse", "opts": {"analyse": 1}, "blobs": {"src": src}}})
